@@ -341,3 +341,13 @@ def destdir_jobs(Job, cfg=CFG_NDEBUG, tier="quick"):
 
 def c12_extra(Job, tier):
     return destdir_jobs(Job)
+
+
+# ---- dfs main tail (C11 dfs half) ---------------------------------------------------------------------------------------
+def main_tail_jobs(Job, cfg=CFG_NDEBUG, tier="quick"):
+    return [Job("D_dfs_main_tail_%s" % cfg[0], "harness/dfs_main.c", "h_main_tail", enforce=["dfs_main_tail"], defines=list(cfg[1]),
+                extract=ext(["dfs_main_tail"]), tier=tier, cover=True)]
+
+
+def c11_jobs(Job, tier):            # noqa: F811
+    return write_span_jobs(Job) + listtype_jobs(Job)[1:2] + main_tail_jobs(Job)
